@@ -1,8 +1,8 @@
 """Obligations for C10."""
 from oblib import ob
 
-BOUNDS = {'quick': 'Inside: ParseUint on every byte string of lengths 1, 2, 5, 19, 20, 21 against a decimal reference (exact value, overflow exactly at 2^64, syntax class); Token.Int/Uint on raw number tokens = optional \'-\' + 1/18/19/20/21 symbolic digits + tails "", .5, e2, .0; Token.Int/Uint on tokens built from every int64, every uint64 and every finite non-zero float64 (SMT floating-point theory); real Unmarshal of such literals into int8/16/32/64 and uint8/16/32/64 (exact bounds), through the string tag (8-bit), and a concrete float32 range table with symbolic sign and route. Outside: shortest float formatting and correct rounding (strconv, uninterpreted), AppendFloat layout.', 'thorough': 'As quick with ParseUint for every length 1..22, more digit counts and tails.'}
-ASSUMPTIONS = ["typed destinations: reflect is the engine's go/types-backed environment model (engine/reflect.go)", "Token.String (used by the accessors only to build error text) is cut: its result is an opaque string", "strconv.ParseFloat on symbolic digits is an uninterpreted function (value of non-integer literals not checked)"]
+BOUNDS = {'quick': 'Inside: AppendFloat layout for EVERY finite float64 and every float32: exponent form exactly when 0<|x|<1e-6 or |x|>=1e21, signed exponent without leading zeros, -0 kept (SMT floating-point theory for the thresholds; digits are strconv and not modelled); ParseUint on every byte string of lengths 1, 2, 5, 19, 20, 21 against a decimal reference (exact value, overflow exactly at 2^64, syntax class); Token.Int/Uint on raw number tokens = optional \'-\' + 1/18/19/20/21 symbolic digits + tails "", .5, e2, .0; Token.Int/Uint on tokens built from every int64, every uint64 and every finite non-zero float64 (SMT floating-point theory); real Unmarshal of such literals into int8/16/32/64 and uint8/16/32/64 (exact bounds), through the string tag (8-bit), and a concrete float32 range table with symbolic sign and route. Outside: shortest float formatting and correct rounding (strconv, uninterpreted), AppendFloat layout.', 'thorough': 'As quick with ParseUint for every length 1..22, more digit counts and tails.'}
+ASSUMPTIONS = ["strconv.AppendFloat on a symbolic float is an opt-in SHAPE stub (engine/intrinsics_appendfloat.go): sign, NaN/Inf texts, one integer digit, optional fraction digit, and for the e format a signed exponent of 2-3 digits constrained by the exact thresholds 1, 1e-6 and 1e21; digit values are unconstrained, lengths under-approximated: only the floatlayout obligations use it and they depend on the layout alone", "typed destinations: reflect is the engine's go/types-backed environment model (engine/reflect.go)", "Token.String (used by the accessors only to build error text) is cut: its result is an opaque string", "strconv.ParseFloat on symbolic digits is an uninterpreted function (value of non-integer literals not checked)"]
 
 
 def obligations(tier):
@@ -39,4 +39,7 @@ def obligations(tier):
         for neg in (False, True):
             L.append(ob("intQ/signed=%d/neg=%d" % (signed, neg), ".", "VerifC10IntQuoted", [signed, neg, 3, ""], covers=["refused"], max_seconds=600))
     L.append(ob("float32/range", ".", "VerifC10Float32Range", [], covers=["refused", "accepted"], max_seconds=600))
+    # ECMA-262 layout of AppendFloat for every finite float64 / float32 (shape stub for strconv.AppendFloat, see ASSUMPTIONS)
+    for bits in (64, 32):
+        L.append(ob("floatlayout/bits=%d" % bits, "internal/jsonwire", "VerifC10FloatLayout", [bits], covers=["exponent-form", "plain-form", "negative-zero"], opaque=["strconv.AppendFloat#shape"], timeout_ms=60000))
     return L
